@@ -632,7 +632,7 @@ plus real encode, compared on diagnostics (full text) and output bytes. non-triv
 	// fixed table first: the register / mnemonic name tables of the model against the real `is_register`
 	names_audit(cx);
 
-	let total = if cx.thorough() {3_000_000} else {200_000};
+	let total = if cx.thorough() {5_000_000} else {200_000};
 	let mut done = 0;
 	while done < total
 	{
